@@ -16,7 +16,7 @@ REGISTRY = {
     'C07': ['contracts.c07'],
     'C08': ['contracts.c08', ('contracts.gates', only('optimize_asm_block_asm_format(gate)', 'optimize_asm_contract(gate)',
                                                       'optimize_isolated_asm_block(gate)'))],
-    'C09': ['contracts.c09', ('contracts.gates', only('optimize_asm_contract(gate)')), ('contracts.c14', only('rebuild_optimized_asm_block'))],
+    'C09': ['contracts.c09', ('contracts.gates', only('optimize_asm_contract(gate)')), ('contracts.c14', only('rebuild_optimized_asm_block')), 'contracts.c14p'],
     'C10': [('contracts.gates', only('fault-containment', 'compare_asm_block_asm_format', 'optimize_asm_block_asm_format(gate)')),
             'contracts.c10'],
     'C11': [('contracts.gates', only('optimize_asm_from_log', 'optimize_asm_block_asm_format(gate)', 'compare_asm_block_asm_format',
@@ -25,7 +25,7 @@ REGISTRY = {
             'contracts.c11'],
     'C12': ['contracts.c12'],
     'C13': ['contracts.c13', ('contracts.c12', only('frame('))],     # process independence includes history independence
-    'C14': ['contracts.c14'],
+    'C14': ['contracts.c14', 'contracts.c14p'],
     'C15': ['contracts.c15'],
     'C17': ['contracts.c17'],
     'C18': ['contracts.c18'],
